@@ -21,6 +21,18 @@ CLAIMED.update({
         note="Trusted: z3, symx; time stamps are modelled as integers order-isomorphic to the fixed-width text; log depth bounded (N+2, N<=4 quick / 6 thorough); get_faultlog's request loop is covered by C06/C07, not here.",
         design="4/C19"),
 })
+_FSM_NOTE = "Trusted: z3 (linear real arithmetic), symx and its virtual-time loop (the real asyncio Task/Future/wait_for run on it), the stub transport. Bounds: delivery budget k (2 quick / 3 thorough) per episode, <= 3 concurrent callers, one fault per episode; arrival delays in [0,10] s. Outside: impersonation notice, buffer overflow, real threads."
+CLAIMED.update({
+    "C07": dict(
+        text="The real send path (PortProtocol.send_cmd -> ProtocolContext FSM -> state classes, asyncio timers and wait_for) runs under a virtual clock with every echo/reply arrival time a solver real and every loss, duplicate, stray packet, write failure, disconnect and the caller's timeout a solver variable; on each explored path (= a zone of the schedule space) the solver proves the call ended, with its own echo/reply or a ProtocolError, within min(timeout, 20 s).",
+        note=_FSM_NOTE, design="4/C07-C09"),
+    "C08": dict(
+        text="Same symbolic-schedule exploration of the real FSM; per path the solver proves: transmissions <= 1+min(max_retries,3), == that when retries are exhausted, fewer only if the caller's timeout fired, exact 0.5/1/2/4 s doubling when nothing is answered, no transmission after the answer, never two commands in flight, first transmissions in (priority, call order).",
+        note=_FSM_NOTE, design="4/C07-C09"),
+    "C09": dict(
+        text="Same exploration; after quiescence on every path: state idle/inactive, the FSM's own is_sending consistency check passes, nothing in flight, no exception reached the loop's exception handler, every caller answered, and a probe command to a responsive device succeeds.",
+        note=_FSM_NOTE + " Re-binding a transport after a disconnect (reconnect) is a recorded known finding.", design="4/C07-C09"),
+})
 NOT_APPLICABLE = {
     "C12": "whole-gateway discovery against a scripted controller over simulated hours: the quantified space is a discrete configuration/loss pattern and the entity layer (voluptuous schemas, pollers, entity graph) is outside the symbolically executable subset; decode kernels it rests on are covered under C05",
     "C15": "schema validity/consistency over packet histories: validators are voluptuous (third-party, callable/regex based, not instrumented) and the rules live in the entity graph; no symbolic dimension is encodable within reach",
